@@ -33,9 +33,17 @@ fn shape_for(prop: &str, i: usize) -> Shape {
             s.p_dep = 15;
             s.max_ops = 8 + 4 * v;
             // systems whose data is one of shred's own SystemData types (what the scheduler is told is then shred's too)
-            s.p_typed = [0, 35, 70, 20][v];
+            s.p_typed = [0, 35, 70, 0][v];
             if v == 2 {
                 s.n_res = 4;
+            }
+            if v == 3 && i % 8 == 3 {
+                // long conflict lanes with skewed running-time hints: groups fill up to capacity (the guards of insertion_target)
+                s.lanes = true;
+                s.rt_skew = true;
+                s.max_ops = 40;
+                s.n_res = 3;
+                s.p_batch = 0;
             }
         }
         "C02" => {
@@ -501,6 +509,7 @@ fn main() {
                         }
                     }
                     Verdict::Fails(_) => {
+                        oracle::FORCE_ALL.store(true, std::sync::atomic::Ordering::SeqCst);
                         let ill = sh.ill_formed;
                         let small = if ill {
                             case.clone()
@@ -543,6 +552,7 @@ fn main() {
             }
         }
         "replay" => {
+            oracle::FORCE_ALL.store(true, std::sync::atomic::Ordering::SeqCst);
             let file = arg(&args, "--file").expect("--file");
             let text = std::fs::read_to_string(&file).expect("cannot read the replay file");
             if prop == "C15" {
